@@ -13,6 +13,10 @@ use std::time::Duration;
 
 pub struct C15;
 
+fn level(tier: Tier) -> usize {
+    tier.pick(1, 2)
+}
+
 fn max_nodes(tier: Tier) -> usize {
     tier.pick(3, 4)
 }
@@ -111,7 +115,7 @@ impl Prop for C15 {
         "C15"
     }
     fn plan(&self, tier: Tier) -> Plan {
-        let n = programs(max_nodes(tier)).len() as u64;
+        let n = Programs::new(level(tier)).len();
         Plan {
             stages: vec![Stage {
                 name: "faults".into(),
@@ -121,7 +125,7 @@ impl Prop for C15 {
                 what: "program x handler invocation index k x {Err, panic}, each followed by the aftermath checks".into(),
             }],
             rule: format!(
-                "fault enumeration: every program of the effects set (<= {} inner nodes, all handler kinds: context function by call and by bare name, global function, registered prefix / infix / setter / postfix operators) x every invocation index k x {{return Err, panic}}. \
+                "fault enumeration: every program of the effects set (<= 3 inner nodes over 16 kinds, thorough: plus exactly 4 over 10 kinds; this run: max {} nodes; all handler kinds: context function by call and by bare name, global function, registered prefix / infix / setter / postfix operators) x every invocation index k x {{return Err, panic}}. \
                  Oracle: log = reference log truncated after k; Err => Err, panic => reaches the caller as an unwind; then a 12-expression battery over all four registries gives its pre-fault results (this thread and a new thread), and the same context answers get / get_variable / set_variable / exec and holds the reference bindings. distinct = distinct (program) with >= 1 handler invocation",
                 max_nodes(tier)
             ),
@@ -134,9 +138,10 @@ impl Prop for C15 {
     fn run(&self, tier: Tier, _stage: usize, a: u64, b: u64, out: &mut WorkerOut) {
         let world = install();
         let expected = battery();
-        let progs = programs(max_nodes(tier));
+        let progs = Programs::new(level(tier));
         for i in a..b {
-            let ast = &progs[i as usize];
+            out.idx = Some(i);
+            let ast = &progs.get(i);
             let text = print_program(ast, &world);
             let key = shape_key(ast, &world.ops);
             let base = run_model(ast, &world, Fault::None, 0);
@@ -168,7 +173,7 @@ impl Prop for C15 {
     }
     fn case_text(&self, tier: Tier, _stage: usize, i: u64) -> String {
         let world = install();
-        show(&print_program(&programs(max_nodes(tier))[i as usize], &world))
+        show(&print_program(&Programs::new(level(tier)).get(i), &world))
     }
     fn min_outcomes(&self) -> usize {
         4
